@@ -125,4 +125,165 @@ theorem strip_member_plain {t : List Char} (h : plainStr t = true) :
   simp only [memberDefault, Default.strOrEmpty, quoted, h3]
   exact stripQ_wrapped hne h1 h2
 
+
+/-! ### `__set_default_enum_member` over a whole run (heap of `Member` objects) -/
+
+/-- the object `getMember` allocates, with the alias the step writes onto it afterwards -/
+def stepCells (s : Step) : List MemberObj :=
+  (foundNames s).map (fun n => { enumName := s.enumName, fieldName := n, alias := truthyAlias s.dtAlias })
+
+/-- the addresses the step stores in the field, when the heap had `base` objects before -/
+def stepOut (base : Nat) (s : Step) : Out :=
+  match s.default, foundNames s with
+  | _, [] => .unchanged
+  | .scalar _ _, _ :: _ => .one base
+  | .list _, ns => .many (List.range' base ns.length)
+
+theorem setAliasAt_append_right (a : List Char) :
+    ∀ (pre cells : Heap) (k : Nat), setAliasAt (pre ++ cells) (pre.length + k) a = pre ++ setAliasAt cells k a := by
+  intro pre
+  induction pre with
+  | nil => intro cells k; simp
+  | cons p ps ih =>
+    intro cells k
+    have e : (p :: ps).length + k = (ps.length + k) + 1 := by simp; omega
+    rw [e, List.cons_append, setAliasAt, ih, List.cons_append]
+
+/-- writing the alias onto the freshly allocated objects touches nothing else -/
+theorem setAliases_fresh (a : List Char) :
+    ∀ (cells pre : Heap),
+      setAliases (pre ++ cells) (List.range' pre.length cells.length) a =
+        pre ++ cells.map (fun m => { m with alias := some a }) := by
+  intro cells
+  induction cells with
+  | nil => intro pre; simp [setAliases]
+  | cons c cs ih =>
+    intro pre
+    have e1 : List.range' pre.length (c :: cs).length = pre.length :: List.range' (pre.length + 1) cs.length := by
+      simp [List.range'_succ]
+    have e2 : setAliasAt (pre ++ c :: cs) pre.length a = (pre ++ [{ c with alias := some a }]) ++ cs := by
+      have := setAliasAt_append_right a pre (c :: cs) 0
+      simp only [Nat.add_zero] at this
+      rw [this]; simp [setAliasAt]
+    have ih' := ih (pre ++ [{ c with alias := some a }])
+    simp only [List.length_append, List.length_cons, List.length_nil, Nat.zero_add] at ih'
+    unfold setAliases at ih' ⊢
+    rw [e1, List.foldl_cons, e2, ih']
+    simp
+
+theorem findAll_closed (en : List Char) (ms : List Member) :
+    ∀ (vs : List (JVal × List Char)) (h : Heap),
+      findAll h en ms vs =
+        (h ++ (vs.filterMap (fun p => findMember ms p.1 p.2)).map (fun n => ({ enumName := en, fieldName := n } : MemberObj)),
+         List.range' h.length (vs.filterMap (fun p => findMember ms p.1 p.2)).length) := by
+  intro vs
+  induction vs with
+  | nil => intro h; simp [findAll]
+  | cons p rest ih =>
+    intro h
+    obtain ⟨v, r⟩ := p
+    rw [findAll]
+    cases hf : findMember ms v r with
+    | none => simp only [hf, List.filterMap_cons]; exact ih h
+    | some n =>
+      simp only [hf, List.filterMap_cons, getMember, ih, List.length_append, List.length_cons, List.length_nil,
+        Nat.zero_add, List.map_cons, List.append_assoc, List.cons_append, List.nil_append, List.range'_succ]
+
+/-- CLOSED FORM of one step: it only appends its own objects (with its own alias) to the heap -/
+theorem applyStep_closed (h : Heap) (s : Step) :
+    applyStep h s = (h ++ stepCells s, stepOut h.length s) := by
+  unfold applyStep stepCells stepOut foundNames
+  cases hd : s.default with
+  | scalar v r =>
+    simp only
+    by_cases hfz : v.falsy = true
+    · simp [hfz]
+    · simp only [hfz, Bool.false_eq_true, if_false]
+      cases hf : findMember s.members v r with
+      | none => simp
+      | some n =>
+        simp only [getMember, Option.toList_some, List.map_cons, List.map_nil]
+        cases ha : truthyAlias s.dtAlias with
+        | none => simp
+        | some al =>
+          have := setAliasAt_append_right al h [({ enumName := s.enumName, fieldName := n } : MemberObj)] 0
+          simp only [Nat.add_zero] at this
+          simp [this, setAliasAt]
+  | list vs =>
+    simp only [findAll_closed]
+    cases hn : vs.filterMap (fun p => findMember s.members p.1 p.2) with
+    | nil => simp
+    | cons n ns =>
+      simp only [List.map_cons, List.length_cons, List.range'_succ]
+      cases ha : truthyAlias s.dtAlias with
+      | none => simp
+      | some al =>
+        have := setAliases_fresh al
+          (({ enumName := s.enumName, fieldName := n } : MemberObj) :: ns.map (fun n => ({ enumName := s.enumName, fieldName := n } : MemberObj))) h
+        simp only [List.length_cons, List.length_map, List.range'_succ, List.map_cons, List.map_map] at this
+        simp only [this]
+        rfl
+
+theorem reprAt_fresh (c : MemberObj) (h cs rest : Heap) :
+    reprAt (h ++ c :: cs ++ rest) h.length = c.repr := by
+  simp [reprAt]
+
+/-- reading the freshly allocated objects back from ANY later heap (objects only ever get appended) -/
+theorem map_reprAt_fresh :
+    ∀ (cells h rest : Heap),
+      (List.range' h.length cells.length).map (reprAt (h ++ cells ++ rest)) = cells.map MemberObj.repr := by
+  intro cells
+  induction cells with
+  | nil => intro h rest; simp
+  | cons c cs ih =>
+    intro h rest
+    have ih' := ih (h ++ [c]) rest
+    simp only [List.length_append, List.length_cons, List.length_nil, Nat.zero_add, List.append_assoc,
+      List.cons_append, List.nil_append] at ih'
+    simp only [List.length_cons, List.range'_succ, List.map_cons, List.append_assoc, List.cons_append]
+    rw [ih']
+    congr 1
+    have := reprAt_fresh c h cs rest
+    simpa using this
+
+theorem aliasOr_truthy (a : Option (List Char)) (en : List Char) : aliasOr (truthyAlias a) en = aliasOr a en := by
+  cases a with
+  | none => rfl
+  | some l => cases l <;> rfl
+
+/-- a step's rendered default, read from any later heap, is `stepText` of that step alone -/
+theorem render_closed (h rest : Heap) (s : Step) :
+    renderOut (h ++ stepCells s ++ rest) (stepOut h.length s) = stepText s := by
+  have hm := map_reprAt_fresh (stepCells s) h rest
+  have hrepr : (stepCells s).map MemberObj.repr = (foundNames s).map (memberText s) := by
+    simp [stepCells, MemberObj.repr, memberText, aliasOr_truthy, Function.comp_def]
+  have hlen : (stepCells s).length = (foundNames s).length := by simp [stepCells]
+  rw [hrepr, hlen] at hm
+  unfold stepOut stepText
+  cases hd : s.default with
+  | scalar v r =>
+    cases hn : foundNames s with
+    | nil => rfl
+    | cons n ns =>
+      simp only [renderOut]
+      rw [hn] at hm
+      simp only [List.length_cons, List.range'_succ, List.map_cons, List.cons.injEq] at hm
+      rw [hm.1]
+  | list vs =>
+    cases hn : foundNames s with
+    | nil => rfl
+    | cons n ns =>
+      simp only [renderOut]
+      rw [hn] at hm
+      rw [hm]
+
+
+theorem takeWhile_eq_self {p : Char → Bool} : ∀ (l : List Char), (∀ c ∈ l, p c = true) → l.takeWhile p = l := by
+  intro l
+  induction l with
+  | nil => intro _; rfl
+  | cons c cs ih =>
+    intro h
+    rw [List.takeWhile_cons, if_pos (h c List.mem_cons_self), ih (fun d hd => h d (List.mem_cons_of_mem _ hd))]
+
 end Dcg.Proofs.Enum
